@@ -40,6 +40,8 @@ pub mod vx_dc {
 /*@include units/dec_comp/ids.rs @*/
 
 /*@include units/dec_comp/sv.rs @*/
+
+/*@include units/dec_comp/aw.rs @*/
 }
 
 } // verus!
